@@ -167,7 +167,9 @@ func (m *bsim) buildModuleSet(ctx context.Context, files map[string]string) (buf
 			}
 			opts = append(opts, bufmodule.LocalModuleWithFullNameAndCommitID(fn, mod.CommitID))
 		}
-		if len(mod.TargetPaths) > 0 || len(mod.ExcludePaths) > 0 {
+		if mod.ProtoFileTarget != "" {
+			opts = append(opts, bufmodule.LocalModuleWithProtoFileTargetPath(mod.ProtoFileTarget, mod.IncludePackageFiles))
+		} else if len(mod.TargetPaths) > 0 || len(mod.ExcludePaths) > 0 {
 			tps := m.permuted(fmt.Sprintf("tpaths%d", i), mod.TargetPaths)
 			eps := m.permuted(fmt.Sprintf("epaths%d", i), mod.ExcludePaths)
 			opts = append(opts, bufmodule.LocalModuleWithTargetPaths(tps, eps))
